@@ -819,7 +819,8 @@ func (e *Env) quant(q *Quant) Val {
 	n.pats = &pats
 	var kTerm T = j
 	var guard T
-	if !fx.bv {
+	var anchorOff *T
+	if !fx.bv || (fx.spec != nil && fx.spec.Options["bv-rebase"] != "") {
 		if anchor := findAnchor(q.Body, q.Var); anchor != nil {
 			func() {
 				defer func() {
@@ -836,12 +837,23 @@ func (e *Env) quant(q *Quant) Val {
 				switch s := av.(type) {
 				case SliceV:
 					kTerm = Sub(j, s.Off)
+					o := s.Off
+					anchorOff = &o
 				case StrV:
 					kTerm = Sub(j, s.Off)
+					o := s.Off
+					anchorOff = &o
 				}
 			}()
 		}
 		off := Sub(j, kTerm) // == s.Off or 0
+		if fx.bv {
+			// mode bv: no symbolic simplification of j - (j - off); offsets and lengths are at most 2^40, so nothing wraps
+			off = fx.idx(0)
+			if anchorOff != nil {
+				off = *anchorOff
+			}
+		}
 		guard = And(Le(Add(lo, off), j, true), Lt(j, Add(hi, off), true))
 	} else {
 		guard = And(Le(lo, j, true), Lt(j, hi, true))
